@@ -497,6 +497,9 @@ def leaf_specs(tier, classes=None):
                                 ds, fs = batch + list(m), list(n)
                                 for op in ("ConvolveData", "ConvolveDataAdjoint", "ConvolveFilter", "ConvolveFilterAdjoint"):
                                     add(dict(op=op, dshape=ds, fshape=fs, mode=mode, strides=st, mc=False))
+                                    if D == 1 and not batch and st in (None, [2]):
+                                        # real-dtype captured array (filter resp. data), complex inputs
+                                        add(dict(op=op, dshape=ds, fshape=fs, mode=mode, strides=st, mc=False, real=True))
     # Wavelet
     waves = ("db4", "haar", "db2", "sym4", "coif1")
     for s in ([8], [5], [4, 4], [3, 6], [2, 4, 2]) if not T else ([8], [5], [12], [4, 4], [3, 6], [5, 5], [2, 4, 2], [3, 3, 3]):
